@@ -7,44 +7,7 @@ verus! {
 //@INCLUDE prelude_object.rs
 //@INCLUDE opcodes.rs
 
-//@TYPE file=symbols.rs name=Scope attrs="#[derive(PartialEq, Eq, Structural, Copy, Clone)]"
-//@TYPE file=symbols.rs name=Symbol
-
-/// One context (global, or one function being compiled): the REAL struct. Its VIEW is the stack of open block
-/// scopes, each the list of names declared in it, in declaration order.
-//@TYPE file=symbols.rs name=Context
-pub type Scopes = Seq<Seq<Seq<char>>>;
-pub open spec fn ctx_view(c: Context) -> Scopes {
-    Seq::new(c.symbols@.len(), |i: int| Seq::new(c.symbols@[i]@.len(), |j: int| c.symbols@[i]@[j]@))
-}
-/// number of names in all open scopes (what Context::total_len computes)
-pub open spec fn flat_len(v: Scopes) -> nat decreases v.len() {
-    if v.len() == 0 { 0 } else { flat_len(v.drop_last()) + v.last().len() }
-}
-/// position of the LAST declaration of `name` in one scope (what rposition answers)
-pub open spec fn last_pos(s: Seq<Seq<char>>, name: Seq<char>) -> Option<int> decreases s.len() {
-    if s.len() == 0 { None } else if s.last() == name { Some(s.len() - 1) } else { last_pos(s.drop_last(), name) }
-}
-/// the slot a name means: innermost scope that declares it, last declaration there, counted across the open scopes
-pub open spec fn slot_of(v: Scopes, name: Seq<char>) -> Option<int> decreases v.len() {
-    if v.len() == 0 { None } else {
-        match last_pos(v.last(), name) {
-            Some(j) => Some(flat_len(v.drop_last()) + j),
-            None => slot_of(v.drop_last(), name),
-        }
-    }
-}
-pub open spec fn declare(v: Scopes, name: Seq<char>) -> Scopes { v.drop_last().push(v.last().push(name)) }
-
-pub open spec fn ctx_resolve(c: Context, name: Seq<char>) -> Option<Symbol> {
-    match slot_of(ctx_view(c), name) { Some(i) => Some(Symbol { index: i as u16, scope: c.scope }), None => None }
-}
-pub open spec fn ctx_after_define(c: Context, name: Seq<char>, post: Context) -> bool {
-    ctx_view(post) == declare(ctx_view(c), name) && post.scope == c.scope && post.max_size == c.max_size + 1
-}
-pub open spec fn ctx_define_symbol(c: Context, name: Seq<char>) -> Symbol { Symbol { index: flat_len(ctx_view(c)) as u16, scope: c.scope } }
-pub open spec fn ctx_max_size(c: Context) -> usize { c.max_size }
-pub open spec fn ctx_is_new(c: Context, scope: Scope) -> bool { c.scope == scope && c.max_size == 0 && ctx_view(c).len() == 1 && ctx_view(c)[0].len() == 0 }
+//@INCLUDE symbols_spec.rs
 
 impl Context {
     /// a fresh context has exactly one (empty) open scope
@@ -140,27 +103,43 @@ pub proof fn lemma_block_roundtrip(v: Scopes, inner: Seq<Seq<char>>, name: Seq<c
     assert(v.push(inner).drop_last() =~= v);
 }
 
-//@TYPE file=symbols.rs name=SymbolTable
-
 impl SymbolTable {
     pub fn new() -> (t: Self)
-        ensures t.contexts@.len() == 1, ctx_is_new(t.contexts@[0], Scope::Global)
+        ensures t.contexts@.len() == 1, ctx_is_new(t.contexts@[0], Scope::Global),
+                sym_wf(t), sym_contexts(t) == 1, sym_depth(t) == 1,
     {
 //@BODY file=symbols.rs fn=new impl=SymbolTable sig="pub fn new() -> Self" rules="R4"
     }
 
-    /// a function body gets a fresh LOCAL context on top; everything below is untouched
+    /// a function body gets a fresh LOCAL context (one empty scope) on top; everything below is untouched
     pub fn new_context(&mut self)
-        ensures final(self).contexts@.len() == old(self).contexts@.len() + 1, final(self).contexts@.drop_last() =~= old(self).contexts@,
-                ctx_is_new(final(self).contexts@.last(), Scope::Local)
+        requires sym_wf(*old(self))
+        ensures
+            final(self).contexts@.len() == old(self).contexts@.len() + 1, final(self).contexts@.drop_last() =~= old(self).contexts@,
+            ctx_is_new(final(self).contexts@.last(), Scope::Local),
+            sym_wf(*final(self)), sym_contexts(*final(self)) == sym_contexts(*old(self)) + 1, sym_depth(*final(self)) == 1,
+            sym_params(*final(self)).len() == 0, sym_outer(*final(self)) == sym_outer(*old(self)).push(sym_depth(*old(self))),
     {
 //@BODY file=symbols.rs fn=new_context impl=SymbolTable sig="pub fn new_context(&mut self)" rules="R4"
+        proof {
+            assert forall|i: int| 0 <= i < self.contexts@.len() implies ctx_view(#[trigger] self.contexts@[i]).len() >= 1 by {
+                if i < old(self).contexts@.len() { assert(self.contexts@.drop_last()[i] == old(self).contexts@[i]); }
+            }
+            let a = sym_outer(*self); let b = sym_outer(*old(self)).push(sym_depth(*old(self)));
+            assert(a.len() == b.len());
+            assert forall|i: int| 0 <= i < a.len() implies a[i] == b[i] by { assert(self.contexts@.drop_last()[i] == old(self).contexts@[i]); }
+            assert(a =~= b);
+        }
     }
 
-    /// leaving a function forgets exactly its own context and reports its slot count
+    /// leaving a function forgets exactly its own context, reports its slot count, and is back in the enclosing
+    /// context at the scope depth that context had
     pub fn leave_context(&mut self) -> (n: usize)
-        requires old(self).contexts@.len() >= 1
-        ensures final(self).contexts@ == old(self).contexts@.drop_last(), n == ctx_max_size(old(self).contexts@.last())
+        requires sym_wf(*old(self)), sym_contexts(*old(self)) >= 2
+        ensures
+            final(self).contexts@ == old(self).contexts@.drop_last(), n == sym_max_size(*old(self)),
+            sym_wf(*final(self)), sym_contexts(*final(self)) == sym_contexts(*old(self)) - 1,
+            sym_depth(*final(self)) == sym_outer(*old(self)).last(), sym_outer(*final(self)) == sym_outer(*old(self)).drop_last(),
     {
 //@BODY file=symbols.rs fn=leave_context impl=SymbolTable sig="pub fn leave_context(&mut self) -> usize" rules="R4"
     }
@@ -175,39 +154,34 @@ impl SymbolTable {
     }
 
     pub fn in_function(&self) -> (b: bool)
-        ensures b == (self.contexts@.len() > 1)
+        ensures b == sym_in_function(*self)
     {
 //@BODY file=symbols.rs fn=in_function impl=SymbolTable sig="pub fn in_function(&self) -> bool" rules="R4"
     }
 
     /// O09.1w  lookup: the CURRENT context first; only if it has no such name, and only when we are inside a
-    /// function, the GLOBAL context (index 0) - never the context of an enclosing function (indices 1..len-2)
+    /// function, the GLOBAL context (index 0) - never the context of an enclosing function (indices 1..len-2).
+    /// The table is not changed.
     pub fn resolve(&mut self, name: &str) -> (r: Option<Symbol>)
-        requires old(self).contexts@.len() >= 1
+        requires sym_wf(*old(self))
         ensures
             //@VACUITY
             final(self).contexts@ == old(self).contexts@,
-            ({
-                let cur = ctx_resolve(old(self).contexts@.last(), name@);
-                if cur is Some { r == cur }
-                else if old(self).contexts@.len() > 1 { r == ctx_resolve(old(self).contexts@[0], name@) }
-                else { r is None }
-            }),
+            r == sym_resolve(*old(self), name@),
     {
 //@BODY file=symbols.rs fn=resolve impl=SymbolTable sig="pub fn resolve(&mut self, name: &str) -> Option<Symbol>" rules="R4"
     }
 
-    /// a declaration goes into the current context only
+    /// a declaration goes into the innermost scope of the current context only and gets that context's next slot;
+    /// a full context refuses it and the table stays as it was
     pub fn define(&mut self, name: &str) -> (r: Result<Symbol, Error>)
-        requires old(self).contexts@.len() >= 1, ctx_view(old(self).contexts@.last()).len() >= 1
+        requires sym_wf(*old(self))
         ensures
             //@VACUITY
-            // every other context is untouched; the current one gets the name in its innermost scope, and the symbol
-            // is the next free slot of the current context
-            final(self).contexts@.len() == old(self).contexts@.len(),
-            final(self).contexts@.drop_last() =~= old(self).contexts@.drop_last(),
+            sym_others_same(*old(self), *final(self)), sym_wf(*final(self)),
+            sym_depth(*final(self)) == sym_depth(*old(self)), sym_contexts(*final(self)) == sym_contexts(*old(self)), sym_outer(*final(self)) == sym_outer(*old(self)),
             r is Ok ==> ctx_after_define(old(self).contexts@.last(), name@, final(self).contexts@.last())
-                && r->Ok_0 == ctx_define_symbol(old(self).contexts@.last(), name@),
+                && r->Ok_0 == sym_define_symbol(*old(self), name@) && sym_params(*final(self)) == sym_params(*old(self)).push(name@),
             r is Err ==> final(self).contexts@ =~= old(self).contexts@,
     {
 //@BODY file=symbols.rs fn=define impl=SymbolTable sig="pub fn define(&mut self, name: &str) -> Result<Symbol, Error>" rules="R4"
@@ -215,13 +189,13 @@ impl SymbolTable {
 
     /// O09.4s  a block opens ONE empty scope on top of the current context's scopes; nothing else changes
     pub fn enter_scope(&mut self)
-        requires old(self).contexts@.len() >= 1
+        requires sym_wf(*old(self))
         ensures
             //@VACUITY
-            final(self).contexts@.len() == old(self).contexts@.len(),
-            final(self).contexts@.drop_last() =~= old(self).contexts@.drop_last(),
+            sym_others_same(*old(self), *final(self)), sym_wf(*final(self)),
             ctx_view(final(self).contexts@.last()) == ctx_view(old(self).contexts@.last()).push(Seq::<Seq<char>>::empty()),
             final(self).contexts@.last().scope == old(self).contexts@.last().scope, final(self).contexts@.last().max_size == old(self).contexts@.last().max_size,
+            sym_depth(*final(self)) == sym_depth(*old(self)) + 1, sym_contexts(*final(self)) == sym_contexts(*old(self)), sym_outer(*final(self)) == sym_outer(*old(self)),
     {
 //@BODY file=symbols.rs fn=enter_scope impl=SymbolTable sig="pub fn enter_scope(&mut self)" rules="R4"
         proof {
@@ -229,19 +203,20 @@ impl SymbolTable {
             assert(a.len() == b.len());
             assert forall|i: int| 0 <= i < a.len() implies a[i] =~= b[i] by {}
             assert(a =~= b);
+            lemma_current_changed(*old(self), *self);
         }
     }
 
     /// O09.4l  the end of a block closes exactly the innermost scope: the names declared in it are gone, everything
     /// declared outside it is as before
     pub fn leave_scope(&mut self)
-        requires old(self).contexts@.len() >= 1, ctx_view(old(self).contexts@.last()).len() >= 1
+        requires sym_wf(*old(self)), sym_depth(*old(self)) >= 2
         ensures
             //@VACUITY
-            final(self).contexts@.len() == old(self).contexts@.len(),
-            final(self).contexts@.drop_last() =~= old(self).contexts@.drop_last(),
+            sym_others_same(*old(self), *final(self)), sym_wf(*final(self)),
             ctx_view(final(self).contexts@.last()) == ctx_view(old(self).contexts@.last()).drop_last(),
             final(self).contexts@.last().scope == old(self).contexts@.last().scope, final(self).contexts@.last().max_size == old(self).contexts@.last().max_size,
+            sym_depth(*final(self)) == sym_depth(*old(self)) - 1, sym_contexts(*final(self)) == sym_contexts(*old(self)), sym_outer(*final(self)) == sym_outer(*old(self)),
     {
 //@BODY file=symbols.rs fn=leave_scope impl=SymbolTable sig="pub fn leave_scope(&mut self)" rules="R4"
         proof {
@@ -249,21 +224,38 @@ impl SymbolTable {
             assert(a.len() == b.len());
             assert forall|i: int| 0 <= i < a.len() implies a[i] =~= b[i] by {}
             assert(a =~= b);
+            lemma_current_changed(*old(self), *self);
         }
     }
 
     /// O17.sym  after a failed compilation: every function context and every block scope still open is forgotten;
     /// what was declared in the outermost scope of the global context stays, with the same slots
     pub fn reset_to_global(&mut self)
-        requires old(self).contexts@.len() >= 1, ctx_view(old(self).contexts@[0]).len() >= 1
+        requires sym_wf(*old(self))
         ensures
             //@VACUITY
             final(self).contexts@.len() == 1,
             ctx_view(final(self).contexts@[0]) =~= ctx_view(old(self).contexts@[0]).take(1),
             final(self).contexts@[0].scope == old(self).contexts@[0].scope,
+            sym_wf(*final(self)), sym_contexts(*final(self)) == 1, sym_depth(*final(self)) == 1,
     {
 //@BODY file=symbols.rs fn=reset_to_global impl=SymbolTable sig="pub fn reset_to_global(&mut self)" rules="R4"
     }
+}
+
+/// only the current context changed (and it still has a scope): well-formedness and the measures of the enclosing
+/// contexts carry over
+pub proof fn lemma_current_changed(a: SymbolTable, b: SymbolTable)
+    requires sym_wf(a), sym_others_same(a, b), ctx_view(b.contexts@.last()).len() >= 1
+    ensures sym_wf(b), sym_outer(b) == sym_outer(a), sym_contexts(b) == sym_contexts(a)
+{
+    assert forall|i: int| 0 <= i < b.contexts@.len() implies ctx_view(#[trigger] b.contexts@[i]).len() >= 1 by {
+        if i < b.contexts@.len() - 1 { assert(b.contexts@.drop_last()[i] == a.contexts@.drop_last()[i]); }
+    }
+    let x = sym_outer(b); let y = sym_outer(a);
+    assert(x.len() == y.len());
+    assert forall|i: int| 0 <= i < x.len() implies x[i] == y[i] by { assert(b.contexts@.drop_last()[i] == a.contexts@.drop_last()[i]); }
+    assert(x =~= y);
 }
 
 /// O09.L5  what a name means at table level (current context, else - inside a function - the globals): a block
